@@ -32,17 +32,17 @@ VARIABLES l, st, env, now, hi, infl, calls, devs, taint
 vars == <<l, st, env, now, hi, infl, calls, devs, taint>>
 \* hi = the largest rate that may be in effect (during a SetRate call the old or the new one); now = time credited so far
 \* infl = packets whose Write has been called and that are neither enqueued nor returned;
-\* calls[p] = <<index of p's call event, index of the event that releases p>>
+\* calls[p] = index of p's call event
 
 Put(f, k, v) == [x \in DOMAIN f \cup {k} |-> IF x = k THEN v ELSE f[x]]
-Pk(p) == Trace[calls[p][1]]
+Pk(p) == Trace[calls[p]]
 \* index of the event that releases the packet with this content (Len(Trace) + 1 if none before the next reset)
 RECURSIVE FindRel(_, _)
 FindRel(i, pkt) == IF i > Len(Trace) THEN Len(Trace) + 1
                    ELSE IF Trace[i].a = "reset" THEN Len(Trace) + 1
-                   ELSE IF Trace[i].a = "rel" /\ Trace[i].pkt = pkt THEN i
+                   ELSE IF Trace[i].a = "rel" /\ Trace[i].pkt.ts = pkt.ts /\ Trace[i].pkt = pkt THEN i
                    ELSE FindRel(i + 1, pkt)
-RelPos(p) == calls[p][2]
+RelPos(p) == FindRel(calls[p] + 1, Pk(p).pkt)     \* evaluated only when several packets are in flight
 
 Init == /\ l = 1 /\ st = New("noop", 0, 1) /\ env = EnvStart(New("noop", 0, 1)) /\ now = 0 /\ hi = 0
         /\ infl = {} /\ calls = <<>> /\ devs = {} /\ taint = ""
@@ -70,7 +70,8 @@ EnqOK(p) ==
   /\ l <= Len(Trace) /\ taint = "" /\ p \in infl
   /\ LET e == Trace[l] IN
      \/ /\ e.a = "ret" /\ e.ok /\ e.p \in infl
-        /\ LET first == {x \in infl : RelPos(x) < RelPos(e.p)} IN      \* released before e.p: enqueued before it
+        /\ LET first == IF infl = {e.p} THEN {}
+                        ELSE {x \in infl : RelPos(x) < RelPos(e.p)} IN   \* released before e.p: enqueued before it
            IF first = {} THEN p = e.p
            ELSE p \in first /\ \A x \in first : RelPos(p) <= RelPos(x)
      \/ e.a = "rel" /\ st.q = <<>> /\ Pk(p).pkt = e.pkt
@@ -92,7 +93,7 @@ Eff(e) ==
   CASE e.a = "addstream" ->
          /\ st' = AddStreamStep(st, e.s) /\ env' = EnvAt(e) /\ UNCHANGED <<hi, infl, calls>>
     [] e.a = "call" ->
-         /\ calls' = Put(calls, e.p, <<l, FindRel(l + 1, e.pkt)>>) /\ infl' = infl \cup {e.p} /\ env' = EnvAt(e) /\ UNCHANGED <<st, hi>>
+         /\ calls' = Put(calls, e.p, l) /\ infl' = infl \cup {e.p} /\ env' = EnvAt(e) /\ UNCHANGED <<st, hi>>
     [] e.a = "ret" ->
          /\ infl' = infl \ {e.p} /\ env' = EnvAt(e) /\ UNCHANGED <<st, hi, calls>>
     [] e.a = "rel" ->
